@@ -74,7 +74,8 @@ def build(case):
             ops.append(op)
         sc['ops'] = ops
         cfg['ping'] = False
-        if cfg.get('disc_emits'):
+        if cfg.get('disc_emits') or any(
+                op[0] == 'race' and len(op) > 4 and op[4] for op in ops):
             cfg['coroutine'] = True     # awaited inline, like the threaded
             #                             twin runs it inline
     if sub == 'c06':
@@ -98,6 +99,10 @@ def build(case):
                                'sdisc_ping_expired', 'emit_ping_expired',
                                'sdisc_race_sever'):
                 life['end'] = 'sever'
+    if sub == 'c08':
+        if cfg.get('disc_emits'):
+            cfg['coroutine'] = True     # (the emit from the disconnect
+            #                             handler is awaited inline)
     if sub == 'c12':
         cfg['mem'] = False
     if sub == 'c07':
